@@ -25,7 +25,10 @@ def Rd.pull (viaReader : Bool) (k : Nat) (onInter : Option Callback) :
       match r.read s cx k onInter with
       | none => (acc.reverse, .fault, r, s, cx)
       | some (bytes, n, e, r', s', cx') =>
-        let acc' := if n = 0 then acc else bytes.take n :: acc
+        -- the caller keeps p[:n]; when the reader reports more than it wrote (a stale `accepted`
+        -- after NextFrame was called in the middle of a text frame) the rest of p[:n] is what
+        -- ioutil.ReadAll's fresh buffer held: zeros
+        let acc' := if n = 0 then acc else (bytes ++ List.replicate (n - bytes.length) 0).take n :: acc
         match e with
         | some e => (acc'.reverse, e, r', s', cx')
         | none => Rd.pull viaReader k onInter fuel r' s' cx' acc'
